@@ -206,7 +206,7 @@ def hvsr_relations(run, h):
         for az_rot in (az_list, [10.0, 30.0, 50.0], [35.0, 80.0], [20.0]):      # also sets that are not symmetric under a -> 180 - a
           st_all = np.array([proc([rec], h.HvsrTraditionalSingleAzimuthProcessingSettings(azimuth_in_degrees=a, **kw)).amplitude[0] for a in az_rot])
           prev = None
-          for p in (0, 10, 25, 50, 75, 90, 100):
+          for p in (0, 10, 25, 30, 33, 36, 50, 75, 90, 100):      # (30 / 33 / 36: several percentiles between the same two order statistics)
             rd = proc([rec], h.HvsrTraditionalRotDppProcessingSettings(azimuths_in_degrees=az_rot, ppth_percentile_for_rotdpp_computation=p, **kw)).amplitude[0]
             if np.any(rd < st_all.min(axis=0) * (1 - 1e-9)) or np.any(rd > st_all.max(axis=0) * (1 + 1e-9)):
                 run.violation("hvsr:rotdpp-bounds", f"RotD{p} leaves the min/max envelope of the single-azimuth curves", dict(kind="hvsr-rel", p=p))
